@@ -74,9 +74,10 @@ def to_events(case):
                     probs.append("fulfil for unknown outgoing htlc at %d" % i)
                     continue
                 emit("ECirc %s (AOutSettle %s %s)" % (ck(*k), ck(ch, idn), hx(h)), i)
-        elif t == "s":
-            if e[2] == "sig":
-                emit("ESig %d%%N" % e[1], i)
+        elif t == "g":
+            # SignNextCommitment + ackDownStreamPackets done (the commit_sig message itself may
+            # never be sent when the link is stopping, and is REsent after a reconnect)
+            emit("ESig %d%%N" % e[1], i)
         elif t == "n":
             kind = e[1]
             if kind == "final":
@@ -135,6 +136,8 @@ def to_events(case):
         elif t == "x" and e[1] == "restart":
             resp.clear()
             emit("ERestart", i)
+        elif t == "x" and e[1] == "linkrestart":
+            emit("ELinkRestart %d%%N" % e[2], i)
     return evs, probs
 
 
@@ -160,7 +163,7 @@ def predicate(case):
     """Returns list of (theorem, message)."""
     fails = []
     ev = case["events"]
-    faulty = case["fault"] != "none"
+    faulty = any(x[0] == "x" for x in ev)
     in_hash = {}       # (ch,id) -> hash of adds Bob received
     out_adds = {}      # hash -> list of (t, ch, id) adds Bob sent
     for i, e in enumerate(ev):
@@ -168,6 +171,31 @@ def predicate(case):
             in_hash.setdefault((e[2], e[4]), e[6])
         if e[0] == "s" and e[2] == "add":
             out_adds.setdefault(e[5], []).append((i, e[1], e[3]))
+
+    fwd_insts = {}     # incoming (ch,id) -> [(t, och, oid)]: outgoing add entered the outgoing update log
+    for i, e in enumerate(ev):
+        if e[0] == "n" and e[1] == "fwd":
+            fwd_insts.setdefault((e[3], e[4]), []).append((i, e[5], e[6]))
+
+    def fault_after(t, och, before):
+        """first restart of the link of channel och (or of the whole node) in (t, before)"""
+        for j in range(t + 1, before):
+            x = ev[j]
+            if x[0] == "x" and (x[1] == "restart" or (x[1] == "linkrestart" and x[2] == och)):
+                return j
+        return None
+
+    def signed_between(t, u, ch):
+        return any(ev[j][0] == "g" and ev[j][1] == ch for j in range(t + 1, u))
+
+    def signed_after(t, before, ch):
+        # "g" = updateCommitTx signed; after a reconnect lnwallet itself signs the commitment it
+        # owes (ProcessChanSyncMsg), visible only as a commit_sig sent by the forwarder
+        for j in range(t + 1, before):
+            if (ev[j][0] == "g" and ev[j][1] == ch) or \
+                    (ev[j][0] == "s" and ev[j][1] == ch and ev[j][2] == "sig"):
+                return j
+        return None
 
     def recv_before(t, ch, kinds, idn=None, after=-1):
         for j in range(after + 1, t):
@@ -212,34 +240,52 @@ def predicate(case):
         # --- fail upstream only once the outgoing twin is gone for good
         if e[0] == "s" and e[2] in ("fail", "mal"):
             ch, idn = e[1], e[3]
-            h = in_hash.get((ch, idn))
-            if h is None:
+            if (ch, idn) not in in_hash:
                 fails.append(("C08_fail_back_safe",
                               "fail sent for unknown incoming htlc %s" % [ch, idn]))
                 continue
-            for (t0, och, oid) in out_adds.get(h, []):
-                if t0 > i:
-                    if not faulty:
-                        fails.append(("C08_fail_back_safe",
-                                      "incoming htlc %s failed back, outgoing twin added afterwards" % [ch, idn]))
+            insts = fwd_insts.get((ch, idn), [])
+            if any(t0 > i for (t0, _, _) in insts):
+                fails.append(("C08_fail_back_safe",
+                              "incoming htlc %s failed back, outgoing twin added afterwards" % [ch, idn]))
+            twins = sorted(set((och, oid) for (t0, och, oid) in insts if t0 < i))
+            for (och, oid) in twins:
+                sends = [t0 for (t0, c_, i_) in insts if (c_, i_) == (och, oid) and t0 < i]
+                # (a) never committed: every time the add entered the outgoing update log, the link
+                #     was restarted before it signed
+                lost = True
+                for k, t0 in enumerate(sends):
+                    nxt = sends[k + 1] if k + 1 < len(sends) else i
+                    tf = fault_after(t0, och, nxt)
+                    if tf is None or signed_between(t0, tf, och):
+                        lost = False
+                if lost:
                     continue
-                t1 = recv_before(i, och, ("fail", "mal"), oid, t0)
-                if t1 is None:
-                    # after a restart an unsigned outgoing add is simply forgotten
-                    committed = sent_before(i, och, "sig", t0) is not None
-                    restarted = any(x[0] == "x" and x[1] == "restart" for x in ev[t0:i])
-                    if committed or not restarted:
-                        fails.append(("C08_fail_back_safe",
-                                      "incoming htlc %s failed back while outgoing htlc %s was never failed downstream"
-                                      % ([ch, idn], [och, oid])))
+                # (b) irrevocably removed
+                t1s = [j for j in range(sends[0], i)
+                       if ev[j][0] == "w" and ev[j][1] == "b" and ev[j][2] == och
+                       and ev[j][3] in ("fail", "mal") and ev[j][4] == oid and not ev[j][7]]
+                if not t1s:
+                    fails.append(("C08_fail_back_safe",
+                                  "incoming htlc %s failed back while outgoing htlc %s was never failed downstream"
+                                  % ([ch, idn], [och, oid])))
                     continue
-                if faulty:
-                    continue
-                t2 = recv_before(i, och, ("sig",), None, t1)
-                t2b = sent_before(i, och, "rev", t2) if t2 is not None else None
-                t3 = sent_before(i, och, "sig", t2b) if t2b is not None else None
-                t4 = recv_before(i, och, ("rev",), None, t3) if t3 is not None else None
-                if t4 is None:
+                ok = False
+                for t1 in t1s:
+                    if faulty:
+                        # necessary under any interleaving with reconnects: a commit_sig received
+                        # after the fail, and a revocation received after Bob signed after the fail
+                        t2 = recv_before(i, och, ("sig",), None, t1)
+                        t3 = signed_after(t1, i, och)
+                        t4 = recv_before(i, och, ("rev",), None, t3) if t3 is not None else None
+                        ok = ok or (t2 is not None and t4 is not None)
+                    else:
+                        t2 = recv_before(i, och, ("sig",), None, t1)
+                        t2b = sent_before(i, och, "rev", t2) if t2 is not None else None
+                        t3 = sent_before(i, och, "sig", t2b) if t2b is not None else None
+                        t4 = recv_before(i, och, ("rev",), None, t3) if t3 is not None else None
+                        ok = ok or t4 is not None
+                if not ok:
                     fails.append(("C08_fail_back_safe",
                                   "incoming htlc %s failed back before the removal of outgoing htlc %s was locked in"
                                   % ([ch, idn], [och, oid])))
